@@ -359,5 +359,15 @@ def r12_6(ctx):
     return r
 
 
+def r12_7(ctx):
+    """a channel opened in-band appears at the peer with the parameters it was created with: the DCEP OPEN
+    marshaller and parser must agree on where each fixed field lives (sibling agreement on byte positions)."""
+    from engine import layout
+    r = RuleResult("R12.7", "K6", "DCEP OPEN: marshal and unmarshal agree on the byte positions of every fixed field")
+    n = layout.compare(r, core, ctx, [("transports::datachannel::DataChannelOpen::unmarshal", "transports::datachannel::DataChannelOpen::marshal")])
+    r.need("DCEP OPEN fields compared", n, 4)
+    return r
+
+
 def run(ctx):
-    return [r12_1(ctx), r12_2(ctx), r12_2b(ctx), r12_3(ctx), r12_4(ctx), r12_5(ctx), r12_6(ctx)]
+    return [r12_1(ctx), r12_2(ctx), r12_2b(ctx), r12_3(ctx), r12_4(ctx), r12_5(ctx), r12_6(ctx), r12_7(ctx)]
